@@ -1909,6 +1909,13 @@ class Wtp:
             title = title[5:]
         if len(title) == 0:
             return None
+        if not title.isascii():
+            try:
+                title.encode("utf-8")
+            except UnicodeEncodeError:
+                # A lone surrogate: no stored page can have this title, and
+                # SQLite cannot take the string as a parameter
+                return None
 
         upper_case_title = title  # the first letter is upper case
         if namespace_id is not None and namespace_id != 0:
